@@ -32,7 +32,11 @@ func ZZ_C13_createOrReuse() {
 	}
 	ds := zzEDS("ns", "foo", tpl, canary)
 	// one peculiarity of the object at a time (kept exclusive to bound the number of paths):
-	quirk := nondet.String("eds.quirk", "none", "stale-hash-annotation", "selector-edited", "reserved-label-own-name", "reserved-label-other-name")
+	quirk := nondet.String("eds.quirk", "none", "stale-hash-annotation", "selector-edited", "reserved-label-own-name", "reserved-label-other-name", "rollout-frozen")
+	// a frozen rollout creates and deletes no pod; replica sets are created, promoted and collected as usual
+	if quirk == "rollout-frozen" {
+		ds.Annotations[datadoghqv1alpha1.ExtendedDaemonSetRolloutFrozenAnnotationKey] = "true"
+	}
 	// the object itself may carry a (stale) template-hash annotation, e.g. a manifest derived from an export
 	if quirk == "stale-hash-annotation" {
 		ds.Annotations[datadoghqv1alpha1.MD5ExtendedDaemonSetAnnotationKey] = "hash-of-a-previous-template"
